@@ -3410,6 +3410,15 @@ GCC_CONF_NATIVE = _native("verif_replay_gcc_conference", "src/core/gcc.rs", """
         let rsp = |oid_last: u8, key: &[u8; 4]| {   // (strictness towards ill-formed responses is not part of the property and is not asserted)
             let mut r = vec![0x00, 0x05, 0x00, 0x14, 0x7c, 0x00, oid_last, 0x2a, 0x14, 0x76, 0x0a, 0x01, 0x01, 0x00, 0x01, 0xc0, 0x00]; r.extend_from_slice(key);
             r.push(blocks.len() as u8); r.extend_from_slice(&blocks); r };
+        // block order NET (one channel + 2 bytes of padding) then CORE, and an unknown block before them: every block body is skipped in full
+        {
+            let alt: Vec<u8> = vec![0x09, 0x0c, 8, 0, 1, 2, 3, 4,   0x03, 0x0c, 12, 0, 0xeb, 3, 1, 0, 0xec, 3, 0, 0,   0x01, 0x0c, 16, 0, 4, 0, 8, 0, 0, 0, 0, 0, 1, 0, 0, 0];
+            let mut r = vec![0x00u8, 0x05, 0x00, 0x14, 0x7c, 0x00, 0x01, 0x2a, 0x14, 0x76, 0x0a, 0x01, 0x01, 0x00, 0x01, 0xc0, 0x00]; r.extend_from_slice(b"McDn");
+            r.push(alt.len() as u8); r.extend_from_slice(&alt);
+            let d = read_conference_create_response(&mut Cursor::new(r)).ok().expect("a response with NET (padded) before CORE and an unknown block is refused");
+            assert_eq!(d.channel_ids, vec![1004], "channel ids when the NET block carries padding");
+            assert!(d.rdp_version == Version::RdpVersion5plus, "version when CORE follows a padded NET block");
+        }
         let good = read_conference_create_response(&mut Cursor::new(rsp(1, b"McDn")));
         assert!(good.is_ok(), "a well-formed conference create response is refused");
         let d = good.unwrap();
@@ -4966,3 +4975,21 @@ def link_read_never_zero(ctx, mir, stats):
     if n == 0:
         raise Inconclusive("ENCODING-FAILED: no Link::read call found in tpkt.rs")
     return obs
+
+
+
+# --------------------------------------------------------------------------
+# C18: every GCC server block body is taken out of the stream in full before it is parsed
+# --------------------------------------------------------------------------
+def gcc_block_bodies(ctx, mir, stats):
+    f = find_fn(mir, r"^read_conference_create_response$")
+    alloc = [b for b in call_blocks(f, r"from_elem::<u8>$") if fp_reachable(f, f.order[0], b, stats)]
+    exact = [b for b in call_blocks(f, r"read_exact$") if fp_reachable(f, f.order[0], b, stats)]
+    cursors = [b for b in call_blocks(f, r"Cursor::<Vec<u8>>::new$") if fp_reachable(f, f.order[0], b, stats)]
+    takes = [b for b in call_blocks(f, r"::take$|Read>::take$") if fp_reachable(f, f.order[0], b, stats)]
+    ok = len(alloc) == 1 and len(exact) == 1 and len(cursors) >= 3 and len(takes) == 1
+    if ok:
+        ok = fp_reachable(f, alloc[0], exact[0], stats) and all(fp_reachable(f, exact[0], c, stats) for c in cursors)
+    return [{"id": "gcc:block-body-consumed-in-full", "ok": ok, "functions": [f.name], "where": f.name, "needs_native": True, "native": None if ok else GCC_CONF_NATIVE,
+             "detail": "each server block body is read with read_exact into a buffer of the announced length and parsed from a cursor over that buffer: bytes a block parser leaves (padding, newer fields, unknown blocks) never become the next block header" if ok else
+             "block bodies are no longer copied out in full before parsing (allocations %d, read_exact %d, cursors %d, take %d): unread bytes of a block can be taken for the next block header" % (len(alloc), len(exact), len(cursors), len(takes))}]
